@@ -142,6 +142,12 @@ func Recvfrom(fd int, p []byte, flags int) (int, real.Sockaddr, error) {
 }
 
 func Sendto(fd int, p []byte, flags int, to real.Sockaddr) error {
+	if to == nil {
+		// send(2): the connected peer, or EDESTADDRREQ
+		raceReleaseIO()
+		_, e := world().K.Write(fd, p)
+		return errOf(e)
+	}
 	ip, port, ok := sa4(to)
 	if !ok {
 		return real.EAFNOSUPPORT
@@ -151,15 +157,7 @@ func Sendto(fd int, p []byte, flags int, to real.Sockaddr) error {
 }
 
 func Shutdown(fd int, how int) error {
-	k := world().K
-	e := k.EndOf(fd)
-	if e == nil {
-		return real.ENOTCONN
-	}
-	if how == real.SHUT_WR || how == real.SHUT_RDWR {
-		e.ActorShutdownWrite()
-	}
-	return nil
+	return errOf(world().K.Shutdown(fd, how))
 }
 
 func SetsockoptInt(fd, level, opt int, value int) error {
